@@ -1375,3 +1375,257 @@ Proof.
     destruct (w_gs w1) eqn:Eg; auto. destruct (T1 eq_refl) as (Hcu & fl & i & -> & Hn).
     destruct Hc as [Hc|Hc]; [congruence|]. exfalso. eapply Hc; eauto.
 Qed.
+
+(* ================================================================== what the automaton guarantees *)
+Definition ekind_eqb (a b : ekind) : bool := (kind_code a =? kind_code b)%Z.
+
+Lemma ekind_eqb_refl k : ekind_eqb k k = true.
+Proof. unfold ekind_eqb. apply Z.eqb_refl. Qed.
+
+(* indices of the nodes for which a given notification occurs in a graph's word, in order *)
+Definition sel (k : ekind) (s : sym) : list nat :=
+  match s with SN k' i => if ekind_eqb k' k then [i] else [] | SG _ => [] end.
+Definition idxs (k : ekind) (w : list sym) : list nat := flat_map (sel k) w.
+
+Lemma idxs_app k a b : idxs k (a ++ b) = idxs k a ++ idxs k b.
+Proof. unfold idxs. apply flat_map_app. Qed.
+
+Definition m_of (a : ast) : nat :=
+  match a with
+  | AFresh | ABad => 0
+  | AStarting m | AInStart m _ | ARoll m _ | ARollIn m _ _ _ | ARollAborted m _ | AStarted m
+  | ACycle m _ | AInEval m _ _ | AStopping m _ _ | AStopIn m _ _ _ _ | AStopFailed m | ADone m | ALeaked m _ => m
+  end.
+
+(* nodes c_of a .. m-1 have had their stop attempt *)
+Definition c_of (a : ast) : nat :=
+  match a with
+  | AFresh | ABad => 0
+  | AStarting m | AInStart m _ | AStarted m | ACycle m _ | AInEval m _ _ => m
+  | ARoll _ c | ARollAborted _ c | AStopping _ c _ | ALeaked _ c => c
+  | ARollIn _ c _ _ | AStopIn _ c _ _ _ => pred c
+  | AStopFailed _ | ADone _ => 0
+  end.
+
+Definition aux_ok (a : ast) : Prop :=
+  match a with
+  | ARollIn _ c _ _ | AStopIn _ c _ _ _ => 0 < c
+  | AInEval m i _ => i < m
+  | _ => True
+  end.
+
+Definition AI (a : ast) (w : list sym) : Prop :=
+  idxs ASN w = seq 0 (m_of a) /\ idxs BPN w = rev (seq (c_of a) (m_of a - c_of a)) /\
+  c_of a <= m_of a /\ aux_ok a.
+
+Lemma rev_seq_snoc c m : S c <= m -> rev (seq (S c) (m - S c)) ++ [c] = rev (seq c (m - c)).
+Proof.
+  intro H. replace (m - c) with (S (m - S c)) by lia. simpl. reflexivity.
+Qed.
+
+Lemma AI_step a s w : AI a w -> ast_bad (astep a s) = false -> AI (astep a s) (w ++ [s]).
+Proof.
+  unfold AI. intros (Ha & Hb & Hc & Hd) Hnb. rewrite !idxs_app.
+  destruct a; destruct s as [k|k j]; destruct k; simpl in Hnb; try discriminate;
+    repeat match goal with
+      | H : context[match ?x with _ => _ end] |- _ =>
+          first [is_var x; destruct x | match x with Nat.eqb ?i ?j => destruct (Nat.eqb_spec i j); subst end
+                | destruct x eqn:?]; simpl in H; try discriminate
+      end;
+    simpl in *; rewrite ?app_nil_r, ?Nat.eqb_refl; simpl;
+    repeat match goal with |- context[if ?b then _ else _] => destruct b eqn:?; simpl end;
+    rewrite ?Ha, ?Hb, ?Nat.sub_diag, ?Nat.sub_0_r; simpl; rewrite ?app_nil_r;
+    try (repeat split; auto; try lia; fail).
+  - change (0 :: seq 1 m) with (seq 0 (S m)). rewrite seq_S. repeat split; auto.
+  - change (0 :: seq 1 m) with (seq 0 (S m)). rewrite seq_S. repeat split; auto.
+  - repeat split; auto; try lia. apply rev_seq_snoc. lia.
+  - repeat split; auto; try lia. apply rev_seq_snoc. lia.
+Qed.
+
+Lemma arun_bad w : arun ABad w = ABad.
+Proof. induction w; simpl; auto. Qed.
+
+Lemma arun_snoc a w s : arun a (w ++ [s]) = astep (arun a w) s.
+Proof. rewrite arun_app. reflexivity. Qed.
+
+Lemma prefix_not_bad a w1 w2 : ast_bad (arun a (w1 ++ w2)) = false -> ast_bad (arun a w1) = false.
+Proof.
+  rewrite arun_app. destruct (arun a w1); auto. rewrite arun_bad. auto.
+Qed.
+
+Lemma AI_run w : ast_bad (arun AFresh w) = false -> AI (arun AFresh w) w.
+Proof.
+  induction w as [|s w IH] using rev_ind; intro H.
+  - simpl. repeat split; auto.
+  - rewrite arun_snoc in *. apply AI_step; auto. apply IH.
+    destruct (arun AFresh w); auto.
+Qed.
+
+(* nodes start in evaluation order: the completed starts are 0,1,..,m-1 in this order;
+   stops are attempted in the reverse order, from the last started node downwards *)
+Lemma word_order w : ast_bad (arun AFresh w) = false ->
+  exists m c, c <= m /\ idxs ASN w = seq 0 m /\ idxs BPN w = rev (seq c (m - c)).
+Proof.
+  intro H. destruct (AI_run w H) as (H1 & H2 & H3 & _). eauto.
+Qed.
+
+(* at rest after the end, the nodes whose start completed are exactly those stopped, once each *)
+Lemma word_closed w : ast_final (arun AFresh w) = true ->
+  exists m, idxs ASN w = seq 0 m /\ idxs BPN w = rev (seq 0 m).
+Proof.
+  intro H. assert (Hb : ast_bad (arun AFresh w) = false) by (destruct (arun AFresh w); auto; discriminate).
+  destruct (AI_run w Hb) as (H1 & H2 & _). exists (m_of (arun AFresh w)).
+  destruct (arun AFresh w); simpl in *; try discriminate; auto.
+  rewrite Nat.sub_0_r in H2. auto.
+Qed.
+
+(* the states of a rollback, and of a stop pass, keep the number of started nodes *)
+Definition rollfam (m : nat) (a : ast) : Prop :=
+  match a with
+  | ARoll m' _ | ARollIn m' _ _ _ | ARollAborted m' _ | ADone m' | ALeaked m' _ => m' = m
+  | _ => False
+  end.
+
+Definition stopfam (m : nat) (a : ast) : Prop :=
+  match a with
+  | AStopping m' _ _ | AStopIn m' _ _ _ _ | AStopFailed m' | ADone m' => m' = m
+  | _ => False
+  end.
+
+Ltac step_cases a s :=
+  destruct a; destruct s as [k|k j]; destruct k; simpl in *; try contradiction; try discriminate;
+  repeat match goal with
+    | H : context[match ?x with _ => _ end] |- _ =>
+        first [is_var x; destruct x | match x with Nat.eqb ?i ?j => destruct (Nat.eqb_spec i j); subst end
+              | destruct x eqn:?]; simpl in H; try discriminate
+    | |- context[match ?x with _ => _ end] =>
+        first [is_var x; destruct x | match x with Nat.eqb ?i ?j => destruct (Nat.eqb_spec i j); subst end
+              | destruct x eqn:?]; simpl; try discriminate
+    end; auto.
+
+Ltac crush_step H :=
+  simpl in H; try discriminate;
+  repeat match type of H with
+    | context[match ?x with _ => _ end] =>
+        first [is_var x; destruct x | match x with Nat.eqb ?i ?j => destruct (Nat.eqb_spec i j); subst end
+              | destruct x eqn:?]; simpl in H; try discriminate
+    end.
+
+Lemma rollfam_step m a s : rollfam m a -> ast_bad (astep a s) = false -> rollfam m (astep a s).
+Proof. intros H Hb. step_cases a s; simpl; auto. Qed.
+
+Lemma stopfam_step m a s : stopfam m a -> ast_bad (astep a s) = false -> stopfam m (astep a s).
+Proof. intros H Hb. step_cases a s; simpl; auto. Qed.
+
+Lemma rollfam_run m : forall w a, rollfam m a -> ast_bad (arun a w) = false -> rollfam m (arun a w).
+Proof.
+  induction w as [|s w IH]; simpl; auto. intros a H Hb. apply IH; auto. apply rollfam_step; auto.
+  destruct (astep a s); auto. rewrite arun_bad in Hb. discriminate.
+Qed.
+
+Lemma stopfam_run m : forall w a, stopfam m a -> ast_bad (arun a w) = false -> stopfam m (arun a w).
+Proof.
+  induction w as [|s w IH]; simpl; auto. intros a H Hb. apply IH; auto. apply stopfam_step; auto.
+  destruct (astep a s); auto. rewrite arun_bad in Hb. discriminate.
+Qed.
+
+Lemma seq_app_nil m l : seq 0 m ++ l = seq 0 m -> l = [].
+Proof. intro H. rewrite <- (app_nil_r (seq 0 m)) in H at 2. apply app_inv_head in H. auto. Qed.
+
+(* a failed start: nothing was stopped before it; afterwards exactly the started prefix k-1..0 is
+   stopped, in reverse (down to c; c = 0 unless a stop failed during the rollback) *)
+Lemma word_failed_start w1 k w2 :
+  ast_bad (arun AFresh (w1 ++ SN SNF k :: w2)) = false ->
+  idxs ASN w1 = seq 0 k /\ idxs BPN w1 = [] /\ idxs ASN w2 = [] /\
+  exists c, c <= k /\ idxs BPN w2 = rev (seq c (k - c)) /\
+            (ast_final (arun AFresh (w1 ++ SN SNF k :: w2)) = true -> c = 0).
+Proof.
+  intro H. pose proof (prefix_not_bad _ _ _ H) as H1.
+  pose proof (AI_run _ H1) as (A1 & B1 & _).
+  assert (H2 : ast_bad (arun AFresh (w1 ++ [SN SNF k])) = false).
+  { replace (w1 ++ SN SNF k :: w2) with ((w1 ++ [SN SNF k]) ++ w2) in H by (rewrite <- app_assoc; reflexivity).
+    eapply prefix_not_bad; eauto. }
+  rewrite arun_snoc in H2.
+  assert (Ha : exists h, arun AFresh w1 = AInStart k h).
+  { destruct (arun AFresh w1); crush_step H2; eauto. }
+  destruct Ha as [h Ha]. rewrite Ha in *. simpl in A1, B1. rewrite Nat.sub_diag in B1. simpl in B1.
+  assert (Hf : rollfam k (arun AFresh (w1 ++ SN SNF k :: w2))).
+  { replace (w1 ++ SN SNF k :: w2) with ((w1 ++ [SN SNF k]) ++ w2) in * by (rewrite <- app_assoc; reflexivity).
+    rewrite arun_app in *. apply rollfam_run; auto. rewrite arun_snoc, Ha. simpl. rewrite Nat.eqb_refl.
+    destruct h; reflexivity. }
+  pose proof (AI_run _ H) as (A2 & B2 & C2 & _).
+  assert (Hm : m_of (arun AFresh (w1 ++ SN SNF k :: w2)) = k).
+  { destruct (arun AFresh (w1 ++ SN SNF k :: w2)); simpl in Hf; try contradiction; auto. }
+  rewrite Hm in *. rewrite idxs_app in A2, B2. simpl in A2, B2. rewrite A1 in A2. rewrite B1 in B2. simpl in B2.
+  apply seq_app_nil in A2. repeat split; auto.
+  exists (c_of (arun AFresh (w1 ++ SN SNF k :: w2))). repeat split; auto.
+  intro Hfin. destruct (arun AFresh (w1 ++ SN SNF k :: w2)); simpl in *; try discriminate; try contradiction; auto.
+Qed.
+
+Lemma done_sticky m w : ast_bad (arun (ADone m) w) = false -> w = [].
+Proof.
+  destruct w as [|s w]; auto. simpl. intro H. exfalso.
+  destruct s as [k|k j]; destruct k; simpl in H; rewrite arun_bad in H; discriminate.
+Qed.
+
+Lemma stop_pass_ends m : forall w a,
+  stopfam m a -> In (SG APG) w -> ast_bad (arun a w) = false -> arun a w = ADone m.
+Proof.
+  induction w as [|s w IH]; intros a Hf Hin Hb; [destruct Hin|]. simpl in *.
+  assert (Hs : ast_bad (astep a s) = false).
+  { destruct (astep a s); auto. rewrite arun_bad in Hb. discriminate. }
+  destruct Hin as [->|Hin].
+  - assert (Hd : astep a (SG APG) = ADone m).
+    { destruct a; simpl in Hf; try contradiction; crush_step Hs; subst; reflexivity. }
+    rewrite Hd in *. apply done_sticky in Hb. subst. reflexivity.
+  - apply IH; auto. apply stopfam_step; auto.
+Qed.
+
+(* a stop pass, once begun, attempts every started node m-1..0, however many of the stops fail *)
+Lemma word_stop_pass w1 w2 :
+  ast_bad (arun AFresh (w1 ++ SG BPG :: w2)) = false ->
+  exists m, idxs ASN w1 = seq 0 m /\ idxs BPN w1 = [] /\
+            (In (SG APG) w2 -> idxs BPN w2 = rev (seq 0 m)).
+Proof.
+  intro H. pose proof (prefix_not_bad _ _ _ H) as H1.
+  pose proof (AI_run _ H1) as (A1 & B1 & _).
+  assert (H2 : ast_bad (arun AFresh (w1 ++ [SG BPG])) = false).
+  { replace (w1 ++ SG BPG :: w2) with ((w1 ++ [SG BPG]) ++ w2) in H by (rewrite <- app_assoc; reflexivity).
+    eapply prefix_not_bad; eauto. }
+  rewrite arun_snoc in H2.
+  assert (Ha : exists m, arun AFresh w1 = AStarted m).
+  { destruct (arun AFresh w1); crush_step H2; eauto. }
+  destruct Ha as [m Ha]. rewrite Ha in *. simpl in A1, B1. rewrite Nat.sub_diag in B1. simpl in B1.
+  exists m. repeat split; auto. intro Hin.
+  replace (w1 ++ SG BPG :: w2) with ((w1 ++ [SG BPG]) ++ w2) in * by (rewrite <- app_assoc; reflexivity).
+  assert (Hf : stopfam m (arun AFresh ((w1 ++ [SG BPG]) ++ w2))).
+  { rewrite arun_app in *. apply stopfam_run; auto. rewrite arun_snoc, Ha. reflexivity. }
+  pose proof (AI_run _ H) as (A2 & B2 & C2 & _).
+  (* after "after stop graph" the automaton can only be in ADone *)
+  assert (Hd : arun AFresh ((w1 ++ [SG BPG]) ++ w2) = ADone m).
+  { rewrite arun_app in *. eapply stop_pass_ends; eauto. rewrite arun_snoc, Ha. reflexivity. }
+  rewrite Hd in *. simpl in A2, B2. rewrite Nat.sub_0_r in B2.
+  rewrite !idxs_app in B2. simpl in B2. rewrite B1 in B2. simpl in B2. exact B2.
+Qed.
+
+(* no evaluation outside the lifetime: when node i is evaluated (observer bracket or user code),
+   its start has completed and no stop of it has been attempted *)
+Lemma word_eval_in_lifetime w1 k i w2 :
+  (k = BEN \/ k = HE) ->
+  ast_bad (arun AFresh (w1 ++ SN k i :: w2)) = false ->
+  In i (idxs ASN w1) /\ ~ In i (idxs BPN w1).
+Proof.
+  intros Hk H. pose proof (prefix_not_bad _ _ _ H) as H1.
+  pose proof (AI_run _ H1) as (A1 & B1 & _ & X1).
+  assert (H2 : ast_bad (arun AFresh (w1 ++ [SN k i])) = false).
+  { replace (w1 ++ SN k i :: w2) with ((w1 ++ [SN k i]) ++ w2) in H by (rewrite <- app_assoc; reflexivity).
+    eapply prefix_not_bad; eauto. }
+  rewrite arun_snoc in H2.
+  assert (Ha : exists m, m_of (arun AFresh w1) = m /\ c_of (arun AFresh w1) = m /\ i < m).
+  { destruct Hk as [-> | ->]; destruct (arun AFresh w1) eqn:Ea; simpl in X1; crush_step H2.
+    - exists m. repeat split; auto. apply Nat.ltb_lt. destruct (i <? m); auto.
+      rewrite andb_false_r in Heqb. discriminate.
+    - exists m. simpl. auto. }
+  destruct Ha as (m & Hm & Hc & Hi). rewrite Hm, Hc in *. rewrite Nat.sub_diag in B1. simpl in B1.
+  rewrite A1, B1. split; [apply in_seq; lia|auto].
+Qed.
